@@ -1,7 +1,9 @@
-"""C10 — see harness/props/dev_ctl.py (event level, shared with the other control-endpoint properties) and
-harness/props/c07_cyc.py (cycle level, run through `extra_checks`)."""
+"""C10 — see harness/props/dev_ctl.py (event level, shared with the other control-endpoint properties),
+harness/props/c07_cyc.py (cycle level, run through `extra_checks`) and harness/props/c10_unclaimed.py (monitor-only
+cases, desc["kind"] == "unclaimed": control endpoints assembled by hand in which standard requests reach the request
+multiplexer's fallback handler -- no StandardRequestHandler, or one with a skiplist)."""
 from harness.common import framework
-from harness.props import dev_ctl, c07_cyc, c07
+from harness.props import dev_ctl, c07_cyc, c07, c10_unclaimed
 
 PROP = "C10"
 LEAN_MODULES = ["LunaVerif.Props.C10"] + dev_ctl.CYC_MODULES + c07.STREAM_MODULES
@@ -9,16 +11,21 @@ DRIVER = dev_ctl.DRIVER
 REQUIRED_THEOREMS = ["unsupported_never_answered", "unsupported_first_request_stalled", "unsupported_setup_establishes_handling", "handling_step",
                      "unhandled_stalls", "unhandled_waits_silently", "unclaimed_request_stalls", "cycle_refines_event",
                      "cycle_refines_event_run"]
-RULE = dev_ctl.RULE + dev_ctl.CYC_RULE + c07.RULE_SYS
-ASSUMPTIONS = dev_ctl.ASSUMPTIONS
+RULE = dev_ctl.RULE + dev_ctl.CYC_RULE + c07.RULE_SYS + c10_unclaimed.RULE
+ASSUMPTIONS = [a.replace("no skiplist", "no skiplist (the cases compared with the model; the fallback layouts of "
+                         "c10_unclaimed.py have skiplists and are judged by the monitor only)")
+               for a in dev_ctl.ASSUMPTIONS] + c10_unclaimed.ASSUMPTIONS
 PARTIAL = c07.PARTIAL_STREAMS + dev_ctl.PARTIAL["C10"][len(dev_ctl.PARTIAL_COMMON):]
 
 
 def gen_cases(tier, rng):
-    return dev_ctl.gen_dev_cases(tier, rng, "c10")
+    # (the fallback-layout cases draw from a fork: the dev cases are the same as without them)
+    return dev_ctl.gen_dev_cases(tier, rng, "c10") + c10_unclaimed.gen_cases(tier, rng.fork("unclaimed"))
 
 
 def run_case(desc):
+    if desc.get("kind") == "unclaimed":
+        return c10_unclaimed.run_case(desc)
     if desc.get("mode") == "cyc":
         return c07_cyc.run_case(desc)
     return dev_ctl.run_dev_case(desc, PROP)
